@@ -384,8 +384,8 @@ impl Check for C41 {
 
     fn budget(&self, tier: vcommon::Tier) -> (u64, usize) {
         match tier {
-            vcommon::Tier::Quick => (640, 40),
-            vcommon::Tier::Thorough => (6400, 40),
+            vcommon::Tier::Quick => (1000, 80),
+            vcommon::Tier::Thorough => (10000, 80),
         }
     }
 
